@@ -251,30 +251,43 @@ func c02Steps(w *World, r *Report) {
 		}
 	}
 	r.Check(left, "R02.3", "expr: RelativeLocationPath → RelativeLocationPath '/' Step", token.NoPos, "left-recursive, no action: steps are reduced (and emitted) in source order", "the step list is not left-recursive: instructions would be emitted in a different order than the steps are written")
-	// CodePathOper: '..' arm pushes exactly one ".." element; '.' arm emits nothing
-	fd, p := w.FuncDecl(cpo)
+	// CodePathOper: for '..' the instruction pushes exactly one ".." element; for '.' there is none
+	fd, _ := w.FuncDecl(cpo)
 	okDD, okDot := false, false
-	for _, sw := range switchesOn(fd.Body, func(e ast.Expr) bool { return objOfIdent(p, e) == paramObj(p, fd, 0) }) {
-		for _, a := range switchArms(p, sw) {
-			for _, c := range a.Consts {
-				v, _ := intConst(c)
-				if v == dotdot {
-					n := 0
-					ast.Inspect(a.Clause, func(x ast.Node) bool {
-						if ce, ok := x.(*ast.CallExpr); ok {
-							if f := calleeOf(p, ce); f != nil && nm(f) == "NewPathElem" {
-								if s, ok := ConstStr(p, ce.Args[0]); ok && s == ".." {
-									n++
-								}
+	if cf := w.SSAFunc(cpo); cf != nil && len(cf.Params) == 2 {
+		instr := func(elem int64) (ssa.Value, bool) {
+			return c02InstructionFor(w, cf, elem)
+		}
+		if v, ok := instr('.'); ok {
+			okDot = v == nil
+		}
+		if v, ok := instr(dotdot); ok && v != nil {
+			var fn *ssa.Function
+			switch x := v.(type) {
+			case *ssa.MakeClosure:
+				fn = x.Fn.(*ssa.Function)
+			case *ssa.Function:
+				fn = x
+			}
+			if fn != nil {
+				n, others := 0, 0
+				for _, b := range fn.Blocks {
+					for _, in := range b.Instrs {
+						c, ok := in.(*ssa.Call)
+						if !ok || c.Call.StaticCallee() == nil {
+							continue
+						}
+						switch nm(c.Call.StaticCallee()) {
+						case "NewPathElem":
+							if k, ok := c.Call.Args[0].(*ssa.Const); ok && k.Value != nil && k.Value.Kind() == constant.String && constant.StringVal(k.Value) == ".." {
+								n++
+							} else {
+								others++
 							}
 						}
-						return true
-					})
-					okDD = n == 1
+					}
 				}
-				if v == '.' {
-					okDot = len(a.Clause.Body) == 0
-				}
+				okDD = n == 1 && others == 0
 			}
 		}
 	}
@@ -1196,4 +1209,71 @@ func c02StepKeyName(w *World, cnt *types.Func, pc, toggle *types.Var) string {
 		return ""
 	}
 	return "no function of CodeNameTest both pushes a literal and appends a path element"
+}
+
+// c02InstructionFor: the function value CodePathOper hands to CodeFn when
+// called with elem (nil: no instruction is emitted), decided by evaluating the
+// conditions of the control flow for that value of the parameter (outside an
+// ignored predicate).  ok=false: not decided.
+func c02InstructionFor(w *World, cf *ssa.Function, elem int64) (ssa.Value, bool) {
+	sym := NewSym(w)
+	model := func(a *pcAtom) (bool, bool) {
+		if a.subj == "p1" {
+			return a.set.contains(elem), true
+		}
+		if bo, ok := a.v.(*ssa.BinOp); ok && a.subj != "" {
+			for _, side := range []ssa.Value{bo.X, bo.Y} {
+				if loadedFieldName(side) == "ignoreInsidePred" {
+					return a.set.contains(0), true // not inside an ignored predicate
+				}
+			}
+		}
+		return false, false
+	}
+	var resolve func(v ssa.Value, d int) (ssa.Value, bool)
+	resolve = func(v ssa.Value, d int) (ssa.Value, bool) {
+		for {
+			if ct, ok := v.(*ssa.ChangeType); ok {
+				v = ct.X
+				continue
+			}
+			break
+		}
+		phi, ok := v.(*ssa.Phi)
+		if !ok || d > 6 {
+			if k, isK := v.(*ssa.Const); isK && k.IsNil() {
+				return nil, true
+			}
+			return v, true
+		}
+		var picked ssa.Value
+		n := 0
+		for i, e := range phi.Edges {
+			pred := phi.Block().Preds[i]
+			cond := pcAndF(sym.PathCond(cf.Blocks[0], pred, nil), sym.edgeCond(pred, phi.Block(), nil))
+			// conditions that test the very phi being resolved (pathOperPush != nil) do not decide the edge
+			val, ok, _ := pcEvalUnder(cond, model)
+			if !ok {
+				return nil, false
+			}
+			if val {
+				n++
+				picked = e
+			}
+		}
+		if n != 1 {
+			return nil, false
+		}
+		return resolve(picked, d+1)
+	}
+	for _, b := range cf.Blocks {
+		for _, in := range b.Instrs {
+			c, ok := in.(*ssa.Call)
+			if !ok || c.Call.StaticCallee() == nil || nm(c.Call.StaticCallee()) != "CodeFn" || len(c.Call.Args) < 2 {
+				continue
+			}
+			return resolve(c.Call.Args[1], 0)
+		}
+	}
+	return nil, false
 }
